@@ -611,7 +611,9 @@ def run_dict_valued(ctx, i, rng):
   entry = ['init', 'apply_new', 'apply_existing'][(i // 4) % 3]
   nested = (i // 12) % 2 == 1
   writes = 1 + (i // 24) % 2
-  desc = dict(how=how, entry=entry, nested=nested, writes=writes)
+  # the caller's mapping may be a dict SUBCLASS (OrderedDict from a config loader, defaultdict): still the caller's object
+  container = ['dict', 'OrderedDict', 'defaultdict', 'dict', 'OrderedDict_inside'][(i // 48) % 5]
+  desc = dict(how=how, entry=entry, nested=nested, writes=writes, container=container)
   with ctx.case('dict_valued', i, desc, nontrivial=True):
     class M(nn.Module):
       @nn.compact
@@ -634,7 +636,16 @@ def run_dict_valued(ctx, i, rng):
         return x
 
     def fresh():
-      return {'a': jnp.asarray(1.5), **({'sub': {'b': jnp.asarray([2.0, 3.0])}} if nested else {})}
+      import collections
+      sub = {'b': jnp.asarray([2.0, 3.0])}
+      if container == 'OrderedDict_inside':
+        sub = collections.OrderedDict(sub)
+      plain = {'a': jnp.asarray(1.5), **({'sub': sub} if nested else {})}
+      if container == 'OrderedDict':
+        return collections.OrderedDict(plain)
+      if container == 'defaultdict':
+        return collections.defaultdict(dict, plain)
+      return plain
 
     d = fresh()
     d_ids = dict_ids(d)
@@ -714,7 +725,7 @@ def run(ctx):
   log = PutLog(ctx)
   for i in ctx.indices(30, 'nested_apply'):
     run_nested_apply(ctx, i, ctx.rng('nested_apply', i))
-  for i in ctx.indices(48, 'dict_valued'):
+  for i in ctx.indices(240, 'dict_valued'):
     run_dict_valued(ctx, i, ctx.rng('dict_valued', i))
   for i in ctx.indices(60 if ctx.tier == 'quick' else 600, 'bound'):
     run_bound_objects(ctx, i, ctx.rng('bound', i))
